@@ -158,6 +158,13 @@ func runC11(r *Rng, n int, tier string) {
 							impl["scan"] = len(m.Scan)
 							impl["nparams"] = len(m.CallArgs)
 						}
+						if prepared {
+							// the statement plumbing a method calls (q.exec / q.query / q.queryRow) is declared
+							src := res.Files["db/db.go"]
+							if m := sum.method("Qx"); m != nil && (m.Driver == "exec" || m.Driver == "query" || m.Driver == "queryRow") {
+								impl["helperDeclared"] = strings.Contains(src, "func (q *Queries) "+m.Driver+"(")
+							}
+						}
 						if iface {
 							impl["iface"] = len(sum.Iface)
 							if len(sum.Iface) == 1 {
@@ -167,7 +174,11 @@ func runC11(r *Rng, n int, tier string) {
 					} else {
 						impl["err"] = firstLine(strings.TrimPrefix(res.Stderr, "# package db\n"))
 					}
-					emit(Case{ID: fmt.Sprintf("e2e-%d", id), Kind: "contract",
+					oracle := ""
+					if hd, ok := impl["helperDeclared"].(bool); ok && !hd {
+						oracle = fmt.Sprintf("the method calls q.%v(...) but the emitted package declares no such method on *Queries", impl["driver"])
+					}
+					emit(Case{ID: fmt.Sprintf("e2e-%d", id), Oracle: oracle, Kind: "contract",
 						In:   J{"engine": engine, "cmd": cmd, "kind": q.kind, "returning": q.returning, "ncols": q.ncols, "nparams": q.nparams, "prepared": prepared, "iface": iface, "files": files},
 						Impl: impl, Tags: []string{cmd, q.kind, engine}})
 					id++
